@@ -53,10 +53,37 @@ def diseq_terms(A, B):
     return out
 
 
+class SolverStuck(Exception):
+    """a z3 call neither honoured its timeout nor an interrupt: the worker process must be abandoned"""
+
+
 def _check(solver, timeout_ms):
+    """check() with the solver's own timeout AND a watchdog thread: some z3 procedures (polynomial arithmetic inside nlsat) do not poll
+    the timeout; after timeout+5 s the context is interrupted, after a further 15 s the call is given up (-> SolverStuck)"""
+    import threading
     solver.set('timeout', int(timeout_ms))
     t = time.time()
-    r = str(solver.check())
+    box = {}
+
+    def work():
+        try:
+            box['r'] = str(solver.check())
+        except z3.Z3Exception as e:
+            box['r'] = 'unknown'
+            box['e'] = str(e)
+    th = threading.Thread(target=work, daemon=True)
+    th.start()
+    th.join(timeout_ms / 1000.0 + 5)
+    if th.is_alive():
+        try:
+            solver.ctx.interrupt()
+        except Exception:
+            pass
+        th.join(15)
+        if th.is_alive():
+            STATS['unknown'] += 1
+            raise SolverStuck('z3 ignored timeout and interrupt after %.0f s' % (time.time() - t))
+    r = box.get('r', 'unknown')
     dt = time.time() - t
     STATS['queries'] += 1
     STATS['solver_s'] += dt
@@ -219,17 +246,27 @@ def prove_equal(A, B, assumptions=(), timeout_ms=60000):
             if v.status == 'unsat':
                 return Verdict('unsat', note='assumptions unsatisfiable (vacuous)')
             return Verdict('unknown', seconds=time.time() - t0)
-    if not state.S.trans:
+    def witness(tries):
+        if state.S.trans:
+            return None
         try:
-            w = random_point_witness(ds, assumptions)
+            w = random_point_witness(ds, assumptions, tries)
         except Exception:
             w = None
         if w is not None:
             STATS['sat'] += 1
             return Verdict('sat', w[0], w[1], time.time() - t0, 'witness by evaluation at a rational point')
+        return None
+    w = witness(2)
+    if w is not None:
+        return w
     v = check_sat(z3.Or(*[d for _, d in ds]) if len(ds) > 1 else ds[0][1], assumptions, timeout_ms)
     if v.status == 'unsat':
         return Verdict('unsat', seconds=time.time() - t0)
+    if v.status == 'unknown':
+        w = witness(80)
+        if w is not None:
+            return w
     if v.status == 'sat':
         where = None
         for i, d in ds:
